@@ -445,8 +445,22 @@ impl<Writer: Write> Mp4Writer<Writer> {
 
     pub(crate) fn max_end_pts(&self) -> Option<u64> {
         fn track_end(samples: &[SampleInfo], last_delta: Option<u32>) -> Option<u64> {
-            let last = samples.last()?;
-            Some(last.pts + u64::from(last_delta.unwrap_or(0)))
+            // Largest presentation end (pts + duration) over all samples: with reordered
+            // video the last decoded sample is not the last one presented.
+            let mut end: Option<u64> = None;
+            for (idx, sample) in samples.iter().enumerate() {
+                let duration = match sample.duration {
+                    Some(d) => d,
+                    None if idx + 1 == samples.len() => last_delta.unwrap_or(0),
+                    None => 0,
+                };
+                let sample_end = sample.pts.saturating_add(u64::from(duration));
+                end = Some(match end {
+                    Some(e) if e >= sample_end => e,
+                    _ => sample_end,
+                });
+            }
+            end
         }
 
         let video_end = track_end(&self.video_samples, self.video_last_delta);
